@@ -132,6 +132,27 @@ Definition sspan_of_start (cf : cfg) (p : parent_opt) (scr : sresult) (o : start
          | None => []
          end).
 
+(* ------------------------------------------------------------------ S2/S3 with the default generator: FRESH ids *)
+(* With the SDK's own RandomIdGenerator nothing is known about the ids beforehand; what the property demands is
+   that they are fresh: non-zero and different from the id of every span seen so far in the program (the span id
+   always, the trace id when a new trace is started).  [tbl] = the spans started or wrapped before this one. *)
+Definition fresh_sid_b (tbl : list sspan) (sid : bytes) : bool :=
+  negb (all_zero sid) && negb (existsb (fun s => bytes_eqb (c_sid (ss_ctx s)) sid) tbl).
+Definition fresh_tid_b (tbl : list sspan) (tid : bytes) : bool :=
+  negb (all_zero tid) && negb (existsb (fun s => bytes_eqb (c_tid (ss_ctx s)) tid) tbl).
+
+Definition spec_fresh (cf : cfg) (tbl : list sspan) (p : parent_opt) (o : start_obs) : list tok :=
+  if cf_enabled cf && cf_defgen cf then
+    check (negb (all_zero (c_sid (so_new o)))) "fresh_ids:zero_span_id" ++
+    check (negb (existsb (fun s => bytes_eqb (c_sid (ss_ctx s)) (c_sid (so_new o))) tbl)) "fresh_ids:span_id_repeated" ++
+    match snd (spec_parent p o) with
+    | Some _ => []
+    | None =>
+        check (negb (all_zero (c_tid (so_new o)))) "fresh_ids:zero_trace_id" ++
+        check (negb (existsb (fun s => bytes_eqb (c_tid (ss_ctx s)) (c_tid (so_new o))) tbl)) "fresh_ids:trace_id_repeated"
+    end
+  else [].
+
 (* ------------------------------------------------------------------ S7: exports *)
 Definition zlist_eqb (a b : list Z) : bool :=
   Nat.eqb (length a) (length b) && forallb (fun p => Z.eqb (fst p) (snd p)) (combine a b).
@@ -166,7 +187,8 @@ Definition ss_end (s : sspan) : sspan := mk_ss (ss_ctx s) (ss_psid s) (ss_rec s)
 (* ------------------------------------------------------------------ a whole program *)
 Definition spec_op (cf : cfg) (tbl : list sspan) (o : sop) (ob : op_obs) : list sspan * list tok :=
   match o, ob with
-  | SStart p gsid gtid scr, OStart so => (tbl ++ [sspan_of_start cf p scr so], spec_start cf p gsid gtid scr so)
+  | SStart p gsid gtid scr, OStart so =>
+      (tbl ++ [sspan_of_start cf p scr so], spec_start cf p gsid gtid scr so ++ spec_fresh cf tbl p so)
   | SEnd k, OEnd xs =>
       match nth_error tbl k with
       | Some s => (set_nth k (ss_end s) tbl, spec_end k s xs)
